@@ -372,7 +372,13 @@ type worker struct {
 }
 
 func newWorker(root string, n int, ops []opDef) *worker {
-	w := &worker{base: filepath.Join(root, fmt.Sprintf("w%d", n)), ops: ops}
+	return newWorkerAt(filepath.Join(root, fmt.Sprintf("w%d", n)), ops)
+}
+
+// newWorkerAt: a worker whose cache directories live under base (whose name the
+// directory-name family chooses).
+func newWorkerAt(base string, ops []opDef) *worker {
+	w := &worker{base: base, ops: ops}
 	os.MkdirAll(w.base, 0o777)
 	w.dir = filepath.Join(w.base, "h0")
 	os.MkdirAll(w.dir, 0o777)
@@ -612,6 +618,9 @@ type kase struct {
 	Base   time.Duration `json:"clock_base,omitempty"`
 	Family string        `json:"family,omitempty"` // "slt": the store-lookup-trim family
 	Clock  string        `json:"clock,omitempty"`  // "", "New York, 5 March", "New York, 29 October"
+	// DirName: the cache lives in a directory of this name (relative to the
+	// scratch root); "" = the worker's ordinary directory
+	DirName string `json:"dir_name,omitempty"`
 }
 
 func violClass(v string) string {
@@ -643,6 +652,9 @@ func main() {
 			}
 			return nil
 		}
+		if c.DirName != "" {
+			w = newWorkerAt(filepath.Join(root, fmt.Sprintf("replay%d", atomic.AddInt64(&replaySeq, 1)), c.DirName), ops)
+		}
 		clockBase = c.Base
 		if ny, err := time.LoadLocation("America/New_York"); err == nil {
 			switch c.Clock {
@@ -662,6 +674,9 @@ func main() {
 		var names []string
 		for _, s := range c.Steps[:at+1] {
 			names = append(names, w.stepName(s))
+		}
+		if c.DirName != "" {
+			return []kit.V{{Key: violClass(v) + fmt.Sprintf(" directory=%q history=", c.DirName) + strings.Join(names, "; "), What: v, Case: c}}
 		}
 		if c.Family == "slt" {
 			return []kit.V{{Key: violClass(v) + fmt.Sprintf(" clock+%v%s history=", c.Base, c.Clock) + strings.Join(names, "; "), What: v, Case: c}}
@@ -842,6 +857,30 @@ func main() {
 	clockStart = nil
 	r.Set("store_lookup_trim_histories", slt)
 
+	// ----- the same family in cache directories whose names hold characters that
+	// mean something to pattern matching, to shells or to the cache's own naming
+	var dn int64
+	dirNames := []string{"go-build[ci]", "a*b", "x?y", "back\\slash", "sp ace", "builds/[3]/go-build", "{a,b}", "%41", "~", "it-a", "it-d", "00", "trim.txt", "dot.", "-x", "caf\u00e9"}
+	for di, name := range dirNames {
+		wn := newWorkerAt(filepath.Join(root, fmt.Sprintf("named%d", di), name), ops)
+		for _, look := range []string{"Get(A)", "Put(A,X)"} {
+			for d1 := range deltas {
+				for d2 := range deltas {
+					st := []step{{-1, opIdx["Put(A,X)"]}, {d1, opIdx[look]}, {d2, opIdx["Trim"]}}
+					dn++
+					if v, at, _ := wn.run(st); v != "" {
+						var names []string
+						for _, s := range st[:at+1] {
+							names = append(names, wn.stepName(s))
+						}
+						r.Violation(violClass(v)+fmt.Sprintf(" directory=%q history=", name)+strings.Join(names, "; "), fmt.Sprintf("cache in a directory named %q; after %s: %s", name, strings.Join(names, "; "), v), kase{Kind: "history", Steps: st, Names: names, DirName: name})
+					}
+				}
+			}
+		}
+	}
+	r.Set("histories_in_oddly_named_directories", dn)
+
 	// ----- populations -----
 	maxFiles := 2
 	if r.Thorough() {
@@ -921,7 +960,7 @@ func main() {
 	r.Set("populations_checked", popDone)
 	r.Set("populations_total", len(pops))
 	r.Set("exhaustive", !r.Capped())
-	r.Set("explanation", "a step = optional clock advance from a 13-value delta alphabet (boundaries of 1h, 24h, 5d, 5d+1h) followed by one of Put/Get/GetBytes/GetFile/Trim; all histories up to the step counts in history_depths_completed (full delta alphabet to the smaller depth, the five boundary deltas one step deeper), deduplicated on the exact state (files, mtimes relative to the virtual clock, trim record, last-use model); every Trim call is judged against the statement's reference model. populations = all sets of <= 2 files from 9 entry/non-entry kinds x 14 ages x 13 last-trim records (thorough: also all sets of 3 files over the 6 boundary ages x 6 records), each followed by one Trim")
+	r.Set("explanation", "a step = optional clock advance from a 13-value delta alphabet (boundaries of 1h, 24h, 5d, 5d+1h) followed by one of Put/Get/GetBytes/GetFile/Trim; all histories up to the step counts in history_depths_completed (full delta alphabet to the smaller depth, the five boundary deltas one step deeper), deduplicated on the exact state (files, mtimes relative to the virtual clock, trim record, last-use model); every Trim call is judged against the statement's reference model. populations = all sets of <= 2 files from 9 entry/non-entry kinds x 14 ages x 13 last-trim records (thorough: also all sets of 3 files over the 6 boundary ages x 6 records), each followed by one Trim; the store-lookup-trim family also in 16 cache directories whose names hold characters special to pattern matching, shells or the cache's own naming ([ ] * ? \\ { } % ~ blank, names ending in -a / -d, 00, trim.txt)")
 	r.Assume("the clock is virtual (c.now replaced through an add-only export file, as the package's own tests do); file mtimes are real mtimes on the scratch file system; a newly created empty output is dated by the harness (copyFile's size-0 branch returns before the Chtimes that dates new files under a fake clock)")
 	r.Assume("a last-trim record that is missing, unparsable, >= 24h old or more than an hour in the future means no trim completed less than a day ago, so the trim must run; within an hour in the future either behaviour is accepted")
 	r.Finish()
